@@ -285,8 +285,32 @@ def rule_OR2_responder(ctx, tier):
     else:
         rr.fail("add_tracker:no-store", "add_tracker can return without calling DBM::store_tracker", where=at.span)
 
-    f = _must(ctx, rr, R_FBC, [CARRIER + "update_height", TXI + "update", RSP + "check_confirmations", RSP + "coming_from_reorg",
+    f = _must(ctx, rr, R_FBC, [CARRIER + "update_height", TXI + "update", RSP + "check_confirmations",
                                RSP + "rebroadcast_stale_txs", CARRIER + "clear_receipts"], "Responder::fbc")
+
+    def reorg_gate(bb):
+        """value of the must-fact `reorged_trackers is not empty` at bb — through the helper or spelled out"""
+        for ft in facts_at(ctx, f, bb):
+            if ft[0] != "truth":
+                continue
+            t_, val = og.strip(ft[1]), ft[2]
+            while isinstance(t_, tuple) and t_ and t_[0] == "un" and t_[1] == "Not":
+                t_, val = og.strip(t_[2]), not val
+            if isinstance(t_, tuple) and t_ and t_[0] == "call" and t_[1].split("::")[-1] == "is_empty" and "f:reorged_trackers" in og.show(t_):
+                return not val   # is_empty == False  <=>  coming from a reorg
+            if isinstance(t_, tuple) and t_ and t_[0] == "call" and t_[1].endswith("Responder::coming_from_reorg"):
+                return val
+        return None
+
+    def reorg_true_edges():
+        out = []
+        for sw in f.rpo():
+            if f.term(sw)["k"] != "switch":
+                continue
+            for succ in f.succ(sw):
+                if reorg_gate(succ) is True and reorg_gate(sw) is None:
+                    out.append((sw, succ))
+        return out
     before = ctx.pf.called_before(f)
     for bb in sites(f, CARRIER + "clear_receipts"):
         if RSP + "rebroadcast_stale_txs" in before.get(bb, set()) and RSP + "check_confirmations" in before.get(bb, set()):
@@ -306,11 +330,14 @@ def rule_OR2_responder(ctx, tier):
     if not hr:
         rr.fail("fbc:no-reorg-handler", "Responder::filtered_block_connected never calls handle_reorged_txs", where=f.span)
     for bb in hr:
-        if truth_fact(ctx, f, bb, "Responder::coming_from_reorg") is True:
+        if reorg_gate(bb) is True:
             rr.ok("handle_reorged_txs only if coming_from_reorg")
         else:
             rr.fail("fbc:reorg-handler-ungated", "handle_reorged_txs is called without `coming_from_reorg()`", where=f.line_of(bb))
-    for sw, succ in switch_succ_with(ctx, f, "truth", True, "Responder::coming_from_reorg"):
+    gate_edges = reorg_true_edges()
+    if not gate_edges:
+        rr.fail("fbc:no-reorg-gate", "Responder::filtered_block_connected never tests whether reorged trackers are waiting", where=f.span)
+    for sw, succ in gate_edges:
         if always_reaches(f, [succ], hr):
             rr.ok("coming_from_reorg -> handle_reorged_txs")
         else:
@@ -350,8 +377,18 @@ def rule_OR2_responder(ctx, tier):
         else:
             rr.fail("fbc:%s-result-ignored" % short, "the rejected list of %s is not examined" % name, where=f.span)
     # check_confirmations: completion only on == IRREVOCABLY_RESOLVED, status update on first confirmation
-    cc = P.require(RSP + "check_confirmations")
+    cc0 = P.require(RSP + "check_confirmations")
+    # the per-tracker body: the loop in check_confirmations itself, or the closure of an iterator chain that replaced it
+    cc = cc0
+    for cid_ in P.family(cc0.id):
+        if cid_ != cc0.id and sites(P.bodies[cid_], DBM + "update_tracker_status"):
+            cc = P.bodies[cid_]
+    in_closure = cc.id != cc0.id
     pushes = sites(cc, "std::vec::Vec::<T, A>::push")
+    if in_closure and not pushes:
+        # `filter_map(|..| .. Some(uuid) ..)`: answering Some(uuid) is what declares the tracker completed
+        pushes = [bb for bb in cc.rpo() for s_ in cc.blocks[bb]["s"] if s_["k"] == "assign" and s_["d"] == [0] and s_["rv"]["k"] == "agg" and s_["rv"].get("variant") == "Some"]
+    iter_boundary = (lambda x: False) if in_closure else (lambda x: is_iter_next(cc, x))
     if len(pushes) != 1:
         rr.fail("cc:pushes", "expected one push to completed_trackers, found %d" % len(pushes), where=cc.span)
     for p in pushes:
@@ -361,7 +398,7 @@ def rule_OR2_responder(ctx, tier):
             k = const_of(r)
             if op in ("Eq", "Ge") and k and k[1] == "teos_common::constants::IRREVOCABLY_RESOLVED":
                 oo = l[1] if l[0] == "proj" else l
-                if oo[0] == "bin" and oo[1].startswith("Sub") and oo[2] == ("param", cc.id, 3):
+                if oo[0] == "bin" and oo[1].startswith("Sub") and oo[2] == ("param", cc0.id, 3):
                     ok = True
         if ok and variant_fact(ctx, cc, p, "ConfirmedIn"):
             rr.ok("cc: completed iff current_height - h == IRREVOCABLY_RESOLVED (status ConfirmedIn)", sample={"rule": "OR2r", "completion guard": "Eq(Sub(current_height, h), IRREVOCABLY_RESOLVED) under ConfirmedIn(h)"})
@@ -370,8 +407,8 @@ def rule_OR2_responder(ctx, tier):
     ups = sites(cc, DBM + "update_tracker_status")
     for u in ups:
         st = arg_origin(ctx, cc, u, 2)
-        in_block = any(f[0] == "truth" and f[2] is True and has_call(f[1], "HashSet", "contains") and ("param", cc.id, 2) in list(og.walk(f[1])) for f in facts_at(ctx, cc, u))
-        if st[0] == "agg" and st[2] == "ConfirmedIn" and st[3][0][1] == ("param", cc.id, 3) and in_block:
+        in_block = any(f[0] == "truth" and f[2] is True and has_call(f[1], "HashSet", "contains") and ("param", cc0.id, 2) in list(og.walk(f[1])) for f in facts_at(ctx, cc, u))
+        if st[0] == "agg" and st[2] == "ConfirmedIn" and st[3][0][1] == ("param", cc0.id, 3) and in_block:
             rr.ok("cc: first confirmation -> ConfirmedIn(current_height)")
         else:
             rr.fail("cc:first-confirmation", "tracker status update in check_confirmations is not `ConfirmedIn(current_height)` under `txids.contains(penalty_txid)`", where=cc.line_of(u))
@@ -390,7 +427,7 @@ def rule_OR2_responder(ctx, tier):
             rr.ok("cc: first confirmation recorded regardless of the reorged flag")
         else:
             rr.fail("cc:confirmation-masked-by-reorg", "a penalty confirmed in this block is only recorded when the tracker is not in the reorged set: a re-confirmed reorged tracker is left for handle_reorged_txs, which stamps it InMempoolSince and it is never seen confirmed again", where=cc.line_of(u))
-        if rem and always_reaches(cc, cc.succ(u), rem, lambda x: is_iter_next(cc, x)):
+        if rem and always_reaches(cc, cc.succ(u), rem, iter_boundary):
             rr.ok("cc: confirmed tracker leaves the reorged set")
         else:
             rr.fail("cc:confirmed-stays-reorged", "a tracker confirmed in this block is not removed from the reorged set: handle_reorged_txs will re-send it and overwrite its status", where=cc.line_of(u))
